@@ -203,3 +203,25 @@ func H_C16_extract() {
 		vAssert("tmo-pong", zHasType(tm, "ZPong", reflect.TypeOf(ZPong{})))
 	}
 }
+
+// H_C16_from_helpers: TypeMapFrom / NameMapFrom give the same maps as ExtractTypeNameMap.
+func H_C16_from_helpers() {
+	vMapOrderFixed(true)
+	w := &ZTree{Kids: []*ZTree{{V: 1}}, Attr: map[string]*ZInner{"a": {N: 1}}}
+	tm, nm := ExtractTypeNameMap(w)
+	tm2 := TypeMapFrom(w)
+	nm2 := NameMapFrom(w)
+	vAssert("same-size", len(tm) == len(tm2) && len(nm) == len(nm2))
+	same := true
+	for k, t := range tm {
+		if t2, ok := tm2[k]; !ok || t2 != t {
+			same = false
+		}
+	}
+	for k, n := range nm {
+		if n2, ok := nm2[k]; !ok || n2 != n {
+			same = false
+		}
+	}
+	vAssert("same-entries", same)
+}
